@@ -292,6 +292,27 @@ def raise_after_write(repo, res):
     if n_lab == 0:
         raise AnalysisError(f"{cfn.where()}: store to self.units not found")
     res.check(late is None, "convert_to_units:relabel-last", cfn.where(late[0]) if late else cfn.where(), "convert_to_units assigns the new unit before it has finished converting the numbers: when the in-place NumPy operation refuses (e.g. a read-only buffer) the array keeps its old numbers under the new unit", "self.units = new_units after the last in-place operation", late[1] if late else "", rid=r2)
+    # re-typing the buffer (X.dtype = <float type>) re-interprets the caller's memory before any number has been written:
+    # when the write that follows is refused (read-only memory) the array is left holding its integer bit patterns read
+    # as floats.  Every path that re-types has passed a writeability test that raises.
+    def retype_guard(fnx, label):
+        n_retype, unguarded = 0, None
+        for pth in enum_paths(fnx.body, limit=20000):
+            guarded = False
+            for ev in pth:
+                if ev[0] == "cond":
+                    txt = norm(ev[1])
+                    if "flags.writeable" in txt and ((ev[2] is True and not txt.startswith("not ")) or (ev[2] is False and txt.startswith("not "))):
+                        guarded = True
+                elif ev[0] == "stmt" and isinstance(ev[1], ast.Assign) and any(isinstance(t, ast.Attribute) and t.attr == "dtype" for t in ev[1].targets):
+                    n_retype += 1
+                    if not guarded:
+                        unguarded = unguarded or ev[1]
+        if n_retype == 0:
+            raise AnalysisError(f"{fnx.where()}: in-place re-typing of integer data not found in {label}")
+        res.check(unguarded is None, f"{label}:retype-needs-writeable", fnx.where(unguarded) if unguarded is not None else fnx.where(), f"{label} re-types an integer buffer in place before it knows the buffer can be written: on a read-only integer array the call raises but the array is left as float64 over the integer bit patterns ([1, 2, 3] becomes [4.9e-324, ...])", "a writeability test that raises before `<buffer>.dtype = ...`", norm(unguarded) if unguarded is not None else "", rid=r2)
+
+    retype_guard(cfn, "convert_to_units")
     # convert_to_equivalent: final unit conversion after the in-place equivalence is the accepted idiom
     fn = arr.func("unyt_array.convert_to_equivalent")
     eff_calls = [c for c in ast.walk(fn.node) if isinstance(c, ast.Call) and isinstance(c.func, ast.Attribute) and c.func.attr == "convert" and c.args and norm(c.args[0]) == "self"]
@@ -346,6 +367,11 @@ def raise_after_write(repo, res):
                 rules_may_raise = True
     if not rules_may_raise:
         raise AnalysisError("no registered unit rule can refuse its operand any more: the refusal anchors moved")
+    class _Pre:
+        body = a.pre
+        where = fn.where
+
+    retype_guard(_Pre, "__array_ufunc__")
     dispatch_raisers = {"self._ufunc_registry[ufunc]", "unit_operator", "_apply_power_mapping"}
     run(fn, {"out"}, "__array_ufunc__", accepted_nodes=accepted, roots={"self", "out", "inputs"}, extra_alias={"out_func": {"out"}, "_out": {"out"}}, raisers=RAISERS | dispatch_raisers)
     # handlers with out= / destination
@@ -415,6 +441,8 @@ def inplace_twin(repo, res):
 
 
 MUTANTS = [
+    Mutant("ufunc-out-retype-without-writeable-test", ARR, "unyt_array.__array_ufunc__", "                    if not out.flags.writeable:\n                        # refuse before the buffer is re-typed below\n                        raise ValueError(\"output array is read-only\")\n", "", ("C18-R2",)),
+    Mutant("retype-without-writeable-test", ARR, "unyt_array.convert_to_units", "                if not values.flags.writeable:\n                    # refuse before the buffer is re-typed below\n                    raise ValueError(\"assignment destination is read-only\")\n", "", ("C18-R2",)),
     Mutant("result-class-looked-up-after-evaluation", ARR, "unyt_array.__array_ufunc__", "            ret_class = _get_binary_op_return_class(type(i0), type(i1))\n", "", ("C18-R2",), more=[(ARR, "unyt_array.__array_ufunc__", "            if unit_operator in (_multiply_units, _divide_units):\n                if unit.is_dimensionless and unit.base_value != 1.0:", "            ret_class = _get_binary_op_return_class(type(i0), type(i1))\n            if unit_operator in (_multiply_units, _divide_units):\n                if unit.is_dimensionless and unit.base_value != 1.0:", 1)]),
     Mutant("in_units-inplace-multiply", ARR, "unyt_array.in_units", "ret = np.asarray(self.ndview * conversion_factor, dtype=new_dtype)", "ret = self.ndview\n            ret *= conversion_factor", ("C18-R1",)),
     Mutant("in_units-subtract-into-view", ARR, "unyt_array.in_units", "np.subtract(ret, offset, ret)", "np.subtract(ret, offset, self.ndview)", ("C18-R1",)),
